@@ -303,6 +303,7 @@ def h_as(k1: int, k2: int, k3: int, q: int, probe: int, m=2, numtype='int32', at
         assume(0 <= k <= 50)
     for k in [k1, k2, k3][m:]:
         assume(k == 0)
+    assume(k1 + k2 + k3 <= symnp.INT_RANGE[indextype][1])      # every index fits the requested index type
     w = new_world()
     items = []
     model = []
